@@ -238,10 +238,13 @@ class C06(Monitor):
 
     def programs(self):
         S = spaces
+        # J: programs whose jumps need EXTENDED_ARG (re-encoding normalized data has
+        # to grow them in the fix-point loop)
+        jumps = [c for c in S.feat_cases(self.tier) if c["k"] == "jump" and c["n"] <= 200]
         if self.tier == "quick":
             out = list(S.with_modes(S.prog_Pa()))
-            return out[::5] + list(S.repo_corpus_cases())[:0]
-        return list(S.with_modes(S.prog_Pa())) + list(S.with_modes(S.prog_Pb()))[::3]
+            return out[::5] + jumps
+        return list(S.with_modes(S.prog_Pa())) + list(S.with_modes(S.prog_Pb()))[::3] + jumps
 
     def cases(self):
         for c in self.programs():
@@ -256,7 +259,7 @@ class C06(Monitor):
         except (SyntaxError, ValueError) as e:
             stats.skipped["not-compilable"] += 1
             return
-        stats.sample("HG", {"program": case["src"], "operations": [n for n, f in OPS], "depth": self.depth()}, per=2)
+        stats.sample("HG", {"program": case.get("src", case), "operations": [n for n, f in OPS], "depth": self.depth()}, per=2)
         for path, code in walk_codes(root):
             key = digest64(code_key(code))
             if key not in self.seen:
